@@ -217,10 +217,12 @@ def main():
             "add_only": True,
         },
         "engines": [{"name": "tlc", "path": "/opt/veriftools/tla/tla2tools.jar",
-                     "serves_properties": sorted(CLAIMED), "kind_free_text": "TLA+ explicit-state model checker; also evaluates trace specifications over ndjson records of real executions"}],
+                     "serves_properties": sorted(CLAIMED), "kind_free_text": "TLA+ explicit-state model checker; also evaluates trace specifications over ndjson records of real executions"},
+                    {"name": "apalache", "path": "/usr/local/bin/apalache-mc", "serves_properties": ["C03", "C04", "C05", "C16"],
+                     "kind_free_text": "symbolic bounded model checker for TLA+; thorough tiers only: inductive registry invariant (C16) and the halo link rule for an unknown face size (C03/C04/C05); a time-out is recorded as inconclusive"}],
         "checks": checks,
         "not_applicable": na,
-        "notes": "All checks: ./check <id> --tier quick|thorough. Known defects of the pinned tree are listed in known_findings.json.",
+        "notes": "All checks: ./check <id> --tier quick|thorough. Known defects of the pinned tree are listed in known_findings.json. ./check X01 (Grid.interp_like against spec/X01Trace.tla) extends the specification beyond the listed properties; it is not a claimed check, prints DEVIATION (never VIOLATION) lines and writes evidence/extras/X01.json.",
     }
     with open(os.path.join(ROOT, "MANIFEST.json"), "w") as f:
         json.dump(man, f, indent=1)
